@@ -2,6 +2,72 @@
 
 package main
 
-import "github.com/jdillenkofer/pithos/internal/verifx"
+import (
+	"context"
+	"os"
+	"path/filepath"
+	"strings"
 
-func newS3hStackMore(dir, name string) *verifx.Stack { return nil }
+	"github.com/jdillenkofer/pithos/internal/storage/metadatapart"
+	"github.com/jdillenkofer/pithos/internal/storage/metadatapart/partstore"
+	"github.com/jdillenkofer/pithos/internal/verifx"
+)
+
+// Part-store compositions for the storage-history harness (C01's quantifier: "every supported
+// part-store composition"). A stack name is either one of the aliases below or a literal word of
+// the C15 stack builder (verifx.StackEnv.Build: z:<sample> g:<sample> t c:<max> o e:<d>:<p>:<stripe>)
+// followed by "/fs" or "/sql", e.g. "z:64 t/fs".
+var s3hAliases = map[string]string{
+	"zstd":    "z:64/fs",
+	"gzip":    "g:64/sql",
+	"tink":    "t/fs",
+	"ec":      "e:2:1:1024/fs",
+	"cache":   "c:1000000/fs",
+	"outbox":  "o/fs",
+	"deep":    "c:100000 z:32 t/sql",
+	"ecdeep":  "z:64 e:2:2:1024/mix",
+	"outdeep": "o g:16/sql",
+}
+
+// S3hStackNames lists every stack the thorough tier rotates through.
+var S3hStackNames = []string{"fs", "sql", "zstd", "gzip", "tink", "ec", "cache", "outbox", "deep", "ecdeep", "outdeep", "named"}
+
+func newS3hStackMore(dir, name string) *verifx.Stack {
+	if name == "named" {
+		return newS3hNamed(dir)
+	}
+	if a, ok := s3hAliases[name]; ok {
+		name = a
+	}
+	i := strings.LastIndexByte(name, '/')
+	if i < 0 {
+		return nil
+	}
+	var word []verifx.Letter
+	for _, f := range strings.Fields(name[:i]) {
+		word = append(word, verifx.ParseLetter(f))
+	}
+	env := verifx.NewStackEnv(dir)
+	env.Gate.Open() // outbox workers flush freely
+	built := env.Build(word, name[i+1:])
+	ms := verifx.NewMeta(env.DB)
+	st := verifx.Must(metadatapart.NewStorage(env.DB, ms, built.Top))
+	verifx.Check(st.Start(context.Background()))
+	return &verifx.Stack{Dir: dir, RawDB: env.DB, DB: env.DB, Meta: ms, PartStore: built.Top, Storage: st}
+}
+
+// newS3hNamed: storage-class routed named part stores: STANDARD_IA → a second filesystem store,
+// GLACIER and DEEP_ARCHIVE → a SQL store, everything else → the default filesystem store.
+func newS3hNamed(dir string) *verifx.Stack {
+	env := verifx.NewStackEnv(dir)
+	def := env.Build(nil, "fs")
+	ia := env.Build(nil, "fs")
+	cold := env.Build(nil, "sql")
+	ms := verifx.NewMeta(env.DB)
+	st := verifx.Must(metadatapart.NewStorageWithNamedPartStores(env.DB, ms, def.Top,
+		map[string]partstore.PartStore{"ia": ia.Top, "cold": cold.Top},
+		map[string]string{"STANDARD_IA": "ia", "GLACIER": "cold", "DEEP_ARCHIVE": "cold"}))
+	verifx.Check(st.Start(context.Background()))
+	_ = os.MkdirAll(filepath.Join(dir, "x"), 0o755)
+	return &verifx.Stack{Dir: dir, RawDB: env.DB, DB: env.DB, Meta: ms, PartStore: def.Top, Storage: st}
+}
